@@ -604,6 +604,31 @@ func genFlow(ctx *core.Ctx) {
 		ctx.Count("flow-random")
 		ctx.Add("c20.flow", c20TreeArgs{Dict: enc(m.main()), Env: env, PName: m.pname})
 	}
+	// round 6: the same pipeline under loader options that change what the later stages see
+	for _, o := range optsExhaustive() {
+		for _, extras := range []int{0, 4, 4 | 16, 31} {
+			for refs := 0; refs <= 2; refs += 2 {
+				for _, set := range []bool{true, false} {
+					m := modelSpec{refs: refs, pname: "proj",
+						secrets: []resSpec{{name: "s1", kind: "environment", varn: "SVAR", extras: extras}, {name: "s2", kind: "file", extras: extras}},
+						configs: []resSpec{{config: true, name: "c1", kind: "environment", varn: "CVAR", extras: extras}}}
+					env := map[string]string{}
+					if set {
+						env["SVAR"], _ = canary(1, c20Deco[1])
+						env["CVAR"], _ = canary(2, c20Deco[4])
+					}
+					ctx.Count("flow-exh-opts-" + o.label())
+					ctx.Add("c20.flow", c20TreeArgs{Dict: enc(m.main()), Env: env, PName: m.pname, Opts: o})
+				}
+			}
+		}
+	}
+	for i := 0; i < ctx.Pick(600, 12000); i++ {
+		m, env, _ := randModel(ctx.Rng, false)
+		o := randOpts(ctx.Rng)
+		ctx.Count("flow-random-opts")
+		ctx.Add("c20.flow", c20TreeArgs{Dict: enc(m.main()), Env: env, PName: m.pname, Opts: o})
+	}
 }
 
 var resNames = []string{"s1", "db_pass", "x-sec", "a.b", "Content", "name", "tok-2", "UPPER", "environment", "x-value"}
@@ -1001,6 +1026,29 @@ func genLeak(ctx *core.Ctx) {
 			}
 		}
 	}
+	// round 6: loader options that change the dynamic type / shape the later stages see × every renderer
+	for _, o := range optsExhaustive() {
+		for _, extras := range []int{0, 4, 4 | 16, 31} {
+			for _, layout := range []string{"single", "override", "include", "include-env"} {
+				m := modelSpec{refs: (extras + 1) % 4, pname: "proj",
+					secrets: []resSpec{{name: "s_env", kind: "environment", varn: "SVAR", extras: extras}, {name: "s_file", kind: "file", extras: extras}},
+					configs: []resSpec{{config: true, name: "c_env", kind: "environment", varn: "CVAR", extras: extras}, {config: true, name: "c_inline", kind: "content"}}}
+				sv, sc := canary(31+extras, c20Deco[(extras+3)%len(c20Deco)])
+				cv, cc := canary(32+extras, c20Deco[(extras+9)%len(c20Deco)])
+				env := map[string]string{"SVAR": sv, "CVAR": cv}
+				cores := map[string]string{"SVAR": sc, "CVAR": cc}
+				var a leakArgs
+				if layout == "include-env" {
+					a = m.leakArgsIncEnv(env, cores, func(string) int { return 1 }, true, false, nil, func(string) {})
+				} else {
+					a = m.leakArgs(env, cores, layout)
+				}
+				a.Opts = o
+				ctx.Count("leak-exh-opts-" + o.label())
+				ctx.Add("c20.leak", a)
+			}
+		}
+	}
 	// the recorded finding: a config whose source variable is the empty name
 	for i := 0; i < ctx.Pick(3, 40); i++ {
 		m, env, cores := randModel(ctx.Rng, true)
@@ -1019,10 +1067,19 @@ func genLeak(ctx *core.Ctx) {
 				ctx.Count("leak-random-include-env-nested")
 				a = nestIncEnv(a, r.Intn, ctx.Count)
 			}
+			if r.Intn(3) == 0 {
+				a.Opts = randOpts(r)
+				ctx.Count("leak-random-opts-" + a.Opts.label())
+			}
 			ctx.Add("c20.leak", a)
 			continue
 		}
-		ctx.Add("c20.leak", m.leakArgs(env, cores, layout))
+		a := m.leakArgs(env, cores, layout)
+		if ctx.Rng.Intn(3) == 0 {
+			a.Opts = randOpts(ctx.Rng)
+			ctx.Count("leak-random-opts-" + a.Opts.label())
+		}
+		ctx.Add("c20.leak", a)
 	}
 	// malformed stream: random node kinds at resource positions, validation on or off
 	for i := 0; i < ctx.Pick(400, 6000); i++ {
